@@ -40,7 +40,7 @@ B = {}
 BOUNDS_TEXT = ("5 templates x generator/coroutine (nested template: 5 nesting flavours) = 13 programs; 1 <= k <= K "
                "awaited Deferreds; schedule = any sequence of distinct slots (others never fire), success or failure "
                "each, any prefix of it fired before the function starts; cancel() of the returned Deferred at any "
-               "one point or never; slot cancellers: no-op / fire a value (quick) / fire a failure (thorough only). "
+               "one point or never; slot cancellers: no-op / fire a value (quick) / fire a failure (thorough, k <= 3). "
                "A SECOND cancel() at any point c2 >= c (also immediately after the first) for the programs that go on "
                "awaiting after a cancellation (try/except, try/finally, nested call: 9 programs), explored for "
                "schedules that fire all k slots with none pre-fired, canceller no-op (try/except), value-firing "
@@ -50,6 +50,11 @@ BOUNDS_TEXT = ("5 templates x generator/coroutine (nested template: 5 nesting fl
                "(try/except and nested-call programs) are of that class; ek >= 1 (harnesses program_b / program5_b) is "
                "explored for runs without cancellation that contain a failing slot (thorough: also with cancellation "
                "for k <= 2).  "
+               "Awaited-Deferred kind (ch, harnesses program_c / program5_c): 'already fired, but one of its callbacks "
+               "returned an unfired inner Deferred' for every slot (ch = 1) or every slot but the first (ch = 2); the "
+               "schedule fires the inner Deferreds and a cancel() must reach them through the awaited Deferred; quick: "
+               "all k slots scheduled, none resolved before the start, at most one cancel, no-op cancellers; thorough: "
+               "every schedule / prefix / canceller / second cancel for k <= 3.  "
                "quick: K = 3.  thorough: K = 4 with all schedules, plus k = 5 with the slots fired in index order "
                "(any number of them, any pre-fired prefix, any outcomes, any cancellation point)")
 OUTSIDE = ["randomly structured programs: the program shape is one of 13 fixed templates, only data, schedule and "
@@ -337,7 +342,7 @@ def _c2_ok(tmpl, k, L, p, c, c2, cm):
     return p == 0 and L == k and (cm == 0 if tmpl == 2 else (cm == 1 if tmpl == 4 else True))
 
 
-def _run(tmpl, flav, k, L, os_, ss, p, c, c2, cm, ek):
+def _run(tmpl, flav, k, L, os_, ss, p, c, c2, cm, ek, ch=0):
     # ---- concretise every symbolic choice (one path per combination; the solver drives the split)
     tmpl = _pick(tmpl, 4)
     flav = _pick(flav, 4)
@@ -353,18 +358,32 @@ def _run(tmpl, flav, k, L, os_, ss, p, c, c2, cm, ek):
     slot_exc = _BErr if ek == 1 else _Err       # class of the awaited Deferreds' failures
     body_exc = _BErr if ek == 2 else _Err       # class of the exceptions raised by the templates
 
+    ch = _pick(ch, 2)
+
     ctx = _RealCtx(k, cm, body_exc)
     outs = [None] * k
     exp_ncancel = [0] * k
+    # Slot kind "fired, but one of its callbacks returned an unfired inner Deferred" (ch = 1: every
+    # slot, ch = 2: every slot but the first): the awaited Deferred has been called, yet has no result
+    # until the inner one fires; the schedule fires the inner one, and a cancel() of the returned
+    # Deferred must reach it through the awaited Deferred's own cancel().
+    target = list(ctx.ds)
+    chained = [False] * k
+    for i in range(k):
+        if ch == 1 or (ch == 2 and i >= 1):
+            chained[i] = True
+            target[i] = _Slot(i, cm)
+            ctx.ds[i].addCallback(lambda r, i=i: target[i])
+            ctx.ds[i].callback(None)
 
     def fire(j):
         i = order[j]
         if oks[j]:
             outs[i] = ("ok", 100 + i)
-            ctx.ds[i].callback(100 + i)
+            target[i].callback(100 + i)
         else:
             outs[i] = ("berr" if ek == 1 else "err", i)
-            ctx.ds[i].errback(slot_exc(i))
+            target[i].errback(slot_exc(i))
 
     for j in range(p):
         fire(j)
@@ -384,7 +403,11 @@ def _run(tmpl, flav, k, L, os_, ss, p, c, c2, cm, ek):
         if fin != ([] if efin is None else [efin]):
             return False
         for i in range(k):
-            if ctx.ds[i].ncancel != exp_ncancel[i] or ctx.ds[i].ncanceller != exp_ncancel[i]:
+            # the awaited Deferred's cancel() is called once per cancellation that finds the program
+            # waiting on it; the canceller that runs is the one of the Deferred that has not fired yet
+            if ctx.ds[i].ncancel != exp_ncancel[i] or target[i].ncanceller != exp_ncancel[i]:
+                return False
+            if chained[i] and (ctx.ds[i].ncanceller != 0 or target[i].ncancel != exp_ncancel[i]):
                 return False
         return True
 
@@ -424,13 +447,16 @@ def _run(tmpl, flav, k, L, os_, ss, p, c, c2, cm, ek):
         cover("cancelled2")
     if fin and fin[0][0] == "err" and fin[0][1][0] == "B":
         cover("bexc")
+    if ncancelled[0] >= 1 and ch > 0:
+        cover("cancelled-chained")
     # (agree() held after the last step.)  Let a still suspended program run to its end: a suspended
     # generator with an await inside `finally` would complain at garbage collection; not part of the
     # checked behaviour
-    for d in ctx.ds:
-        if not d.called:
-            d.callback(0)
-        d.addErrback(lambda f: None)
+    for i in range(k):
+        if not target[i].called:
+            target[i].callback(0)
+        target[i].addErrback(lambda f: None)
+        ctx.ds[i].addErrback(lambda f: None)
     return True
 
 
@@ -465,7 +491,7 @@ def program5(tmpl: int, flav: int, k: int, L: int, o0: int, o1: int, o2: int, o3
     """
     pre: 0 <= tmpl <= 4 and 0 <= flav <= (4 if tmpl == 4 else 1)
     pre: 1 <= k <= B['k'] and 0 <= L <= k and 0 <= p <= L and -1 <= c <= L - p
-    pre: 0 <= cm <= B['cm'] and (c >= 0 or cm == 0)
+    pre: 0 <= cm <= B['cm'] and (c >= 0 or cm == 0) and (cm <= 1 or k <= 3)
     pre: -1 <= c2 <= L - p and _c2_ok(tmpl, k, L, p, c, c2, cm)
     pre: (0 <= o0 < k) if L > 0 else (o0 == 0 and not s0)
     pre: (0 <= o1 < k) if L > 1 else (o1 == 0 and not s1)
@@ -509,7 +535,7 @@ def program5_b(tmpl: int, flav: int, k: int, L: int, o0: int, o1: int, o2: int, 
     pre: 1 <= ek <= (2 if tmpl == 2 or tmpl == 4 else 1)
     pre: 1 <= k <= B['k'] and 1 <= L <= k and 0 <= p <= L and -1 <= c <= L - p
     pre: c < 0 or k <= B['ekfull']
-    pre: 0 <= cm <= B['cm'] and (c >= 0 or cm == 0)
+    pre: 0 <= cm <= B['cm'] and (c >= 0 or cm == 0) and (cm <= 1 or k <= 3)
     pre: -1 <= c2 <= L - p and _c2_ok(tmpl, k, L, p, c, c2, cm)
     pre: (0 <= o0 < k) if L > 0 else (o0 == 0 and not s0)
     pre: (0 <= o1 < k) if L > 1 else (o1 == 0 and not s1)
@@ -525,6 +551,44 @@ def program5_b(tmpl: int, flav: int, k: int, L: int, o0: int, o1: int, o2: int, 
     post: _
     """
     return _run(tmpl, flav, k, L, (o0, o1, o2, o3, o4), (s0, s1, s2, s3, s4), p, c, c2, cm, ek)
+
+
+def program_c(tmpl: int, flav: int, k: int, o0: int, o1: int, o2: int,
+              s0: bool, s1: bool, s2: bool, c: int, ch: int) -> bool:
+    """
+    pre: 0 <= tmpl <= 4 and 0 <= flav <= (4 if tmpl == 4 else 1)
+    pre: 1 <= ch <= 2 and 1 <= k <= 3 and k <= B['k'] and -1 <= c <= k
+    pre: 0 <= o0 < k
+    pre: (0 <= o1 < k) if k > 1 else (o1 == 0 and not s1)
+    pre: (0 <= o2 < k) if k > 2 else (o2 == 0 and not s2)
+    pre: k < 2 or o1 != o0
+    pre: k < 3 or (o2 != o0 and o2 != o1)
+    post: _
+    """
+    # quick tier, awaited Deferreds of the kind "fired, but a callback returned an unfired Deferred":
+    # all k slots scheduled, none resolved before the function starts, one cancellation point or none,
+    # no-op cancellers
+    return _run(tmpl, flav, k, k, (o0, o1, o2), (s0, s1, s2), 0, c, -1, 0, 0, ch)
+
+
+def program5_c(tmpl: int, flav: int, k: int, L: int, o0: int, o1: int, o2: int,
+               s0: bool, s1: bool, s2: bool, p: int, c: int, c2: int, cm: int, ch: int) -> bool:
+    """
+    pre: 0 <= tmpl <= 4 and 0 <= flav <= (4 if tmpl == 4 else 1)
+    pre: 1 <= ch <= 2 and 1 <= k <= 3 and 0 <= L <= k and 0 <= p <= L and -1 <= c <= L - p
+    pre: 0 <= cm <= B['cm'] and (c >= 0 or cm == 0)
+    pre: -1 <= c2 <= L - p and _c2_ok(tmpl, k, L, p, c, c2, cm)
+    pre: (0 <= o0 < k) if L > 0 else (o0 == 0 and not s0)
+    pre: (0 <= o1 < k) if L > 1 else (o1 == 0 and not s1)
+    pre: (0 <= o2 < k) if L > 2 else (o2 == 0 and not s2)
+    pre: L < 2 or o1 != o0
+    pre: L < 3 or (o2 != o0 and o2 != o1)
+    pre: (p < 2 or o0 < o1) and (p < 3 or o1 < o2)
+    post: _
+    """
+    # thorough tier: the same slot kind with every schedule, pre-fired prefix (the inner Deferred fired
+    # before the function starts), canceller and second cancel for k <= 3
+    return _run(tmpl, flav, k, L, (o0, o1, o2), (s0, s1, s2), p, c, c2, cm, 0, ch)
 
 
 _SEQ5 = ("k == 5 and o0 == 0 and (L < 2 or o1 == 1) and (L < 3 or o2 == 2) and (L < 4 or o3 == 3) "
@@ -576,9 +640,14 @@ def _shards_b(tier):
 _LABELS = ("end", "cancelled", "cancelled2")
 HARNESSES = [H(program, shards=_shards, timeout={"quick": 120}, tiers=("quick",), labels=_LABELS),
              H(program_b, shards=_shards_b, timeout={"quick": 120}, tiers=("quick",), labels=("end", "bexc")),
+             H(program_c, shards=lambda tier: [("tmpl == %d" % t, "flav == %d" % f) for (t, f) in PROGRAMS],
+               timeout={"quick": 120}, tiers=("quick",), labels=("end", "cancelled-chained")),
              H(program5, shards=_shards, timeout={"thorough": 1500}, tiers=("thorough",), labels=_LABELS),
              H(program5_b, shards=_shards_b, timeout={"thorough": 1500}, tiers=("thorough",),
-               labels=("end", "bexc"))]
+               labels=("end", "bexc")),
+             H(program5_c, shards=lambda tier: [("tmpl == %d" % t, "flav == %d" % f, "ch == %d" % h)
+                                                for (t, f) in PROGRAMS for h in (1, 2)],
+               timeout={"thorough": 1500}, tiers=("thorough",), labels=("end", "cancelled-chained"))]
 
 
 def _v(tmpl, flav, k, order, oks, p, c, cm, c2=-1, slots=3, ek=None):
@@ -611,7 +680,21 @@ def _vb(d):
     return (tmpl, flav, k, len(order)) + tuple(o) + tuple(sk) + (p, d["ek"])
 
 
-VECTORS = {"program": [_v(*d["a"], c2=d.get("c2", -1)) for d in _VEC if "ek" not in d],
+def _vc(tmpl, flav, k, order, oks, c, ch):
+    o = list(order) + [0] * (3 - len(order))
+    sk = [bool(x) for x in oks] + [False] * (3 - len(oks))
+    return (tmpl, flav, k) + tuple(o) + tuple(sk) + (c, ch)
+
+
+_VECC = [_vc(0, 0, 3, [0, 1, 2], [1, 1, 1], 0, 1), _vc(1, 1, 3, [2, 0, 1], [1, 0, 1], 1, 2),
+         _vc(2, 0, 3, [1, 0, 2], [0, 1, 1], 2, 1), _vc(2, 1, 2, [1, 0], [1, 1], 0, 1),
+         _vc(3, 0, 3, [0, 2, 1], [1, 1, 1], 1, 2), _vc(3, 1, 3, [0, 1, 2], [1, 1, 1], -1, 1),
+         _vc(4, 0, 3, [0, 1, 2], [1, 0, 1], 1, 1), _vc(4, 1, 3, [2, 1, 0], [1, 1, 1], 3, 2),
+         _vc(4, 2, 3, [0, 1, 2], [1, 1, 1], 0, 2), _vc(4, 3, 3, [1, 0, 2], [1, 1, 1], 1, 1),
+         _vc(4, 4, 3, [0, 1, 2], [0, 1, 1], 0, 1), _vc(0, 1, 1, [0], [1], 0, 1)]
+VECTORS = {"program_c": _VECC,
+           "program5_c": [v[:3] + (v[2],) + v[3:9] + (0, v[9], -1, 0, v[10]) for v in _VECC],
+           "program": [_v(*d["a"], c2=d.get("c2", -1)) for d in _VEC if "ek" not in d],
            "program_b": [_vb(d) for d in _VEC if "ek" in d],
            "program5": [_v(*d["a"], c2=d.get("c2", -1), slots=5) for d in _VEC[::3] if "ek" not in d],
            "program5_b": [_v(*d["a"], c2=d.get("c2", -1), slots=5, ek=d["ek"]) for d in _VEC if "ek" in d]}
